@@ -1,6 +1,7 @@
 import Crv.Cand
 import Crv.Props.C06
 import Crv.Props.C16
+import Crv.Proofs.ReaderEnvelope
 /-!
 C04 — CRL authenticity under `verify`. Three parts:
 (i)   the digest is over exactly the DER tbsCertList and the hash is the one the declared algorithm names
@@ -11,6 +12,9 @@ C04 — CRL authenticity under `verify`. Three parts:
       name or authority key identifier, whose key usage (when present) permits CRL signing — for all chains, trusted
       lists and AKI forms;
 (iii) policy: under `verify` only a verified CRL comes into force, in every history (`Crv.Props.C16.verify_in_force_was_verified`).
+(iv)  the *unsigned envelope* of an accepted CRL is pinned down, for every byte string and every oracle (end of this file):
+      the outer signatureAlgorithm is byte-identical to the signed inner `signature` field, the outer length is honest,
+      the signature BIT STRING has no unused bits, and a long-form length byte is canonical.
 "Any single bit" reduces to the primitive: a change in tbsCertList changes the digest input (i), a change in the
 signature bits changes the input of `sigOK`, a change of the algorithm OID changes the table row or leaves the table.
 -/
@@ -146,6 +150,193 @@ theorem supported_algorithms :
     (hashTable.map (·.1)) = [[1, 2, 840, 10045, 4, 1], [1, 2, 840, 10045, 4, 3, 1], [1, 2, 840, 10045, 4, 3, 2],
       [1, 2, 840, 10045, 4, 3, 3], [1, 2, 840, 10045, 4, 3, 4], [1, 2, 840, 113549, 1, 1, 11], [1, 2, 840, 113549, 1, 1, 12],
       [1, 2, 840, 113549, 1, 1, 13], [1, 2, 840, 113549, 1, 1, 14], [1, 2, 840, 113549, 1, 1, 5]] := by decide
+
+/-! ### The unsigned envelope of an accepted CRL (every byte string, every oracle) -/
+
+/-- **Outer algorithm = inner algorithm.** An accepted run asks the AlgorithmIdentifier decoder exactly twice — first about
+the outer `signatureAlgorithm` (pre-scan, `qo`), then about the `signature` field inside tbsCertList (`qi`) — and the two
+frames (the file bytes `frameAt file q = (file.drop q.off).take q.len` the queries refer to) are byte-identical. The OID
+that selects the hash is the decoding of that frame. -/
+theorem accepted_outer_alg_is_inner (O : Oracle) (file : Bytes) (res : ReadResult)
+    (hok : (readCRL O file).outcome = .ok res) :
+    ∃ qo qi rest, (readCRL O file).queries = qo :: qi :: rest ∧ qo.kind = .alg ∧ qi.kind = .alg ∧
+      (∀ q ∈ rest, q.kind ≠ .alg) ∧ frameAt file qi = frameAt file qo ∧
+      O.algOid (frameAt file qo) = some res.algOid ∧ lookupHash res.algOid = some res.hashAlg := by
+  obtain ⟨oid, f, r1, r2, hp, hb, hq, _⟩ := readCRL_ok_inv hok
+  obtain ⟨qo, hq1, hk1, hf1, ho⟩ := prescan_ok (sync_init file) rfl hp
+  have env := readBody_envelope (sync_init file) hb
+  obtain ⟨qi, l, hq2, hk2, hf2, hl, _, _⟩ := env.queries
+  refine ⟨qo, qi, l, ?_, hk1, hk2, hl, by rw [hf1, hf2], ?_, ?_⟩
+  · rw [hq, hq1, hq2]; rfl
+  · rw [hf1, env.algOid]; exact ho
+  · rw [env.algOid]; exact env.hashOk
+
+/-- **Honest outer length.** The file starts with a SEQUENCE header `tl`, and an accepted run ends exactly where that
+header says the CertificateList ends: `finalPos = 1 + lenSize + len`; all of it lies inside the file. -/
+theorem accepted_outer_length_honest (O : Oracle) (file : Bytes) (res : ReadResult)
+    (hok : (readCRL O file).outcome = .ok res) :
+    ∃ tl r, readTL { rest := file } = .ok tl r ∧ tl.tag = 0x30 ∧
+      (readCRL O file).finalPos = 1 + tl.lenSize + tl.len ∧ (readCRL O file).finalPos = tl.tlvLen ∧
+      (readCRL O file).finalPos ≤ file.length := by
+  obtain ⟨oid, f, r1, r2, _, hb, _, hfin⟩ := readCRL_ok_inv hok
+  have env := readBody_envelope (sync_init file) hb
+  obtain ⟨tl, r, htl, htag, hpos, _⟩ := env.header
+  have h0 : ({ rest := file } : Rd).pos = 0 := rfl
+  rw [h0] at hpos
+  refine ⟨tl, r, htl, htag, ?_, ?_, ?_⟩
+  · rw [hfin]; omega
+  · rw [hfin, TL.tlvLen]; omega
+  · rw [hfin]; exact env.inFile
+
+/-- **Whole-octet signature.** The signature BIT STRING of an accepted CRL has no unused bits. -/
+theorem accepted_signature_whole_octets (O : Oracle) (file : Bytes) (res : ReadResult)
+    (hok : (readCRL O file).outcome = .ok res) :
+    res.sig.bitLen % 8 = 0 ∧ res.sig.bitLen = 8 * res.sig.bytes.length := by
+  obtain ⟨oid, f, r1, r2, _, hb, _, _⟩ := readCRL_ok_inv hok
+  have h := holds_readBody_post O oid f { rest := file } (allocOK_init file)
+  rw [hb] at h
+  exact ⟨h.2.2.1, h.2.2.2⟩
+
+/-- **Canonical long form** (`ReadLength`). If a length is read successfully and its first byte `b` has bit `0x80` set,
+then none of the bits `0x70` is set and the count `b & 0x0f` is not zero — `0x80` (indefinite) and `0x90 … 0xff` never
+decode — and the size of the length field is the count plus one. -/
+theorem long_form_first_byte_canonical (r r' : Rd) (l s : Nat) (b : UInt8) (t : Bytes)
+    (hr : r.rest = b :: t) (hb : b &&& 0x80 ≠ 0) (h : readLen r = .ok (l, s) r') :
+    b &&& 0x70 = 0 ∧ b &&& 0x0f ≠ 0 ∧ s = (b &&& 0x0f).toNat + 1 := by
+  obtain ⟨_, b', t', hr', _, hlong⟩ := readLen_ok h
+  rw [hr] at hr'
+  simp only [List.cons.injEq] at hr'
+  rw [hr'.1]
+  exact hlong (by rw [← hr'.1]; exact hb)
+
+/-- The same for `PeekLength` at offset `off`. -/
+theorem long_form_first_byte_canonical_peek (off : Nat) (r r' : Rd) (l s : Nat) (b : UInt8) (t : Bytes)
+    (hr : r.rest.drop off = b :: t) (hb : b &&& 0x80 ≠ 0) (h : peekLen off r = .ok (l, s) r') :
+    b &&& 0x70 = 0 ∧ b &&& 0x0f ≠ 0 ∧ s = (b &&& 0x0f).toNat + 1 := by
+  obtain ⟨b', t', hr', _, hlong⟩ := peekLen_ok h
+  rw [hr] at hr'
+  simp only [List.cons.injEq] at hr'
+  rw [hr'.1]
+  exact hlong (by rw [← hr'.1]; exact hb)
+
+/-- Corollary: a long form that decodes has between 1 and 15 length bytes, and its first byte is one of `0x81 … 0x8f`. -/
+theorem long_form_length_bytes (r r' : Rd) (l s : Nat) (b : UInt8) (t : Bytes)
+    (hr : r.rest = b :: t) (hb : b &&& 0x80 ≠ 0) (h : readLen r = .ok (l, s) r') :
+    1 ≤ s - 1 ∧ s - 1 ≤ 15 ∧ 0x81 ≤ b.toNat ∧ b.toNat ≤ 0x8f := by
+  obtain ⟨h70, h0f, hs⟩ := long_form_first_byte_canonical r r' l s b t hr hb h
+  have hpos := and15_pos h0f
+  have hle : (b &&& 0x0f).toNat ≤ 15 := mask_le b
+  have hb' : UInt8.ofNat b.toNat = b := UInt8.ofNat_toNat
+  have hrange := long_form_range b.toNat (UInt8.toNat_lt b) (by rw [hb']; exact hb) (by rw [hb']; exact h70)
+    (by rw [hb']; exact h0f)
+  exact ⟨by omega, by omega, hrange.1, hrange.2⟩
+
+theorem long_form_length_bytes_peek (off : Nat) (r r' : Rd) (l s : Nat) (b : UInt8) (t : Bytes)
+    (hr : r.rest.drop off = b :: t) (hb : b &&& 0x80 ≠ 0) (h : peekLen off r = .ok (l, s) r') :
+    1 ≤ s - 1 ∧ s - 1 ≤ 15 ∧ 0x81 ≤ b.toNat ∧ b.toNat ≤ 0x8f := by
+  obtain ⟨h70, h0f, hs⟩ := long_form_first_byte_canonical_peek off r r' l s b t hr hb h
+  have hpos := and15_pos h0f
+  have hle : (b &&& 0x0f).toNat ≤ 15 := mask_le b
+  have hb' : UInt8.ofNat b.toNat = b := UInt8.ofNat_toNat
+  have hrange := long_form_range b.toNat (UInt8.toNat_lt b) (by rw [hb']; exact hb) (by rw [hb']; exact h70)
+    (by rw [hb']; exact h0f)
+  exact ⟨by omega, by omega, hrange.1, hrange.2⟩
+
+/-- **The envelope is pinned** (one accepted file). Everything outside the hashed region is determined by the header and
+the hashed (hence signed) bytes: the file starts with a SEQUENCE header `tl`; the hashed region is the file slice that
+starts right after that header; the run ends exactly at the end `tl` declares, inside the file; the outer
+signatureAlgorithm frame (`qo`) is a copy of bytes *inside the hashed region* (the slice the inner query `qi` refers to);
+the hash is the one this frame's OID names; and the signature has no unused bits. What is left free is only the choice
+among (non-minimal) length encodings of the outer and BIT STRING headers. -/
+theorem envelope_bits_pinned (O : Oracle) (file : Bytes) (res : ReadResult)
+    (hok : (readCRL O file).outcome = .ok res) :
+    ∃ tl r qo qi rest,
+      readTL { rest := file } = .ok tl r ∧ tl.tag = 0x30 ∧
+      (readCRL O file).finalPos = tl.tlvLen ∧ tl.tlvLen ≤ file.length ∧
+      res.hashFrom = 1 + tl.lenSize ∧
+      res.hashRegion = (file.drop res.hashFrom).take res.hashRegion.length ∧
+      res.hashFrom + res.hashRegion.length ≤ tl.tlvLen ∧
+      (readCRL O file).queries = qo :: qi :: rest ∧ qo.kind = .alg ∧ qi.kind = .alg ∧ (∀ q ∈ rest, q.kind ≠ .alg) ∧
+      res.hashFrom ≤ qi.off ∧ qi.off + qi.len ≤ res.hashFrom + res.hashRegion.length ∧
+      frameAt file qo = (res.hashRegion.drop (qi.off - res.hashFrom)).take qi.len ∧
+      O.algOid (frameAt file qo) = some res.algOid ∧ lookupHash res.algOid = some res.hashAlg ∧
+      res.sig.bitLen = 8 * res.sig.bytes.length := by
+  obtain ⟨oid, f, r1, r2, hp, hb, hq, hfin⟩ := readCRL_ok_inv hok
+  obtain ⟨qo, hq1, hk1, hf1, ho⟩ := prescan_ok (sync_init file) rfl hp
+  have env := readBody_envelope (sync_init file) hb
+  obtain ⟨qi, l, hq2, hk2, hf2, hl, hlo, hhi⟩ := env.queries
+  obtain ⟨tl, r, htl, htag, hpos, hfrom⟩ := env.header
+  have h0 : ({ rest := file } : Rd).pos = 0 := rfl
+  rw [h0] at hpos hfrom
+  have hend : r2.pos = tl.tlvLen := by rw [TL.tlvLen]; omega
+  refine ⟨tl, r, qo, qi, l, htl, htag, by rw [hfin, hend], by rw [← hend]; exact env.inFile, by omega,
+    env.region, by rw [← hend]; exact env.regionEnd, by rw [hq, hq1, hq2]; rfl, hk1, hk2, hl, hlo, hhi, ?_,
+    by rw [hf1, env.algOid]; exact ho, by rw [env.algOid]; exact env.hashOk,
+    (accepted_signature_whole_octets O file res hok).2⟩
+  rw [env.region, slice_of_slice file _ _ _ _ hlo hhi, hf1, ← hf2]
+  rfl
+
+/-- Two accepted files whose hashed regions carry the same inner AlgorithmIdentifier slice select the same hash, and their
+outer signatureAlgorithm frames are identical; with equal signature bytes the signature values are equal as BIT STRINGs. -/
+theorem same_signed_alg_same_envelope (O : Oracle) (file₁ file₂ : Bytes) (res₁ res₂ : ReadResult)
+    (h₁ : (readCRL O file₁).outcome = .ok res₁) (h₂ : (readCRL O file₂).outcome = .ok res₂) :
+    ∃ qo₁ qi₁ rest₁ qo₂ qi₂ rest₂,
+      (readCRL O file₁).queries = qo₁ :: qi₁ :: rest₁ ∧ (readCRL O file₂).queries = qo₂ :: qi₂ :: rest₂ ∧
+      ((res₁.hashRegion.drop (qi₁.off - res₁.hashFrom)).take qi₁.len =
+          (res₂.hashRegion.drop (qi₂.off - res₂.hashFrom)).take qi₂.len →
+        frameAt file₁ qo₁ = frameAt file₂ qo₂ ∧ res₁.algOid = res₂.algOid ∧ res₁.hashAlg = res₂.hashAlg ∧
+        (res₁.sig.bytes = res₂.sig.bytes → res₁.sig = res₂.sig)) := by
+  obtain ⟨_, _, qo₁, qi₁, rest₁, _, _, _, _, _, _, _, hq₁, _, _, _, _, _, hf₁, ho₁, hh₁, hs₁⟩ :=
+    envelope_bits_pinned O file₁ res₁ h₁
+  obtain ⟨_, _, qo₂, qi₂, rest₂, _, _, _, _, _, _, _, hq₂, _, _, _, _, _, hf₂, ho₂, hh₂, hs₂⟩ :=
+    envelope_bits_pinned O file₂ res₂ h₂
+  refine ⟨qo₁, qi₁, rest₁, qo₂, qi₂, rest₂, hq₁, hq₂, ?_⟩
+  intro heq
+  have hfr : frameAt file₁ qo₁ = frameAt file₂ qo₂ := by rw [hf₁, hf₂, heq]
+  have hoid : res₁.algOid = res₂.algOid := by
+    rw [hfr, ho₂] at ho₁
+    exact (Option.some.inj ho₁).symm
+  refine ⟨hfr, hoid, ?_, ?_⟩
+  · rw [hoid, hh₂] at hh₁
+    exact (Option.some.inj hh₁).symm
+  · intro hb
+    cases hsig₁ : res₁.sig with
+    | mk b₁ n₁ =>
+      cases hsig₂ : res₂.sig with
+      | mk b₂ n₂ =>
+        rw [hsig₁] at hs₁ hb
+        rw [hsig₂] at hs₂ hb
+        simp only at hs₁ hs₂ hb
+        rw [hs₁, hs₂, hb]
+
+-- Non-vacuity: the concrete accepted document of C06 (`exDoc`, v2, two entries, extensions) instantiates every statement.
+theorem exDoc_accepted : ∃ res, (readCRL C06.exOracle (enc C06.exDoc)).outcome = .ok res :=
+  let ⟨_, _, res, hres, _⟩ := C06.read_enc C06.exOracle C06.exDoc _ _ _ _ C06.exDoc_wf
+  ⟨res, hres⟩
+
+example : ∃ qo qi rest, (readCRL C06.exOracle (enc C06.exDoc)).queries = qo :: qi :: rest ∧ qo.kind = .alg ∧ qi.kind = .alg ∧
+    frameAt (enc C06.exDoc) qi = frameAt (enc C06.exDoc) qo := by
+  obtain ⟨res, hres⟩ := exDoc_accepted
+  obtain ⟨qo, qi, rest, h1, h2, h3, _, h5, _⟩ := accepted_outer_alg_is_inner _ _ res hres
+  exact ⟨qo, qi, rest, h1, h2, h3, h5⟩
+
+example : (readCRL C06.exOracle (enc C06.exDoc)).finalPos = (enc C06.exDoc).length ∧
+    ∃ tl r, readTL { rest := enc C06.exDoc } = .ok tl r ∧ (readCRL C06.exOracle (enc C06.exDoc)).finalPos = tl.tlvLen := by
+  obtain ⟨res, hres⟩ := exDoc_accepted
+  obtain ⟨tl, r, h1, _, _, h4, _⟩ := accepted_outer_length_honest _ _ res hres
+  exact ⟨(C06.read_enc C06.exOracle C06.exDoc _ _ _ _ C06.exDoc_wf).2.1, tl, r, h1, h4⟩
+
+example : ∃ res, (readCRL C06.exOracle (enc C06.exDoc)).outcome = .ok res ∧ res.sig.bitLen = 24 ∧ res.sig.bitLen % 8 = 0 := by
+  obtain ⟨_, _, res, hres, heq⟩ := C06.read_enc C06.exOracle C06.exDoc _ _ _ _ C06.exDoc_wf
+  refine ⟨res, hres, ?_, (accepted_signature_whole_octets _ _ res hres).1⟩
+  rw [heq]; rfl
+
+-- `0x82 0x01 0x00` decodes (256, three length bytes); `0x80` (indefinite), `0x90 …`, `0xff …` are refused as `lenForm`.
+example : (match readLen { rest := [0x82, 1, 0] } with | .ok (256, 3) _ => true | _ => false) = true := by decide
+example : (match readLen { rest := [0x80, 1, 0] } with | .err .lenForm _ => true | _ => false) = true := by decide
+example : (match readLen { rest := [0x90, 1, 0] } with | .err .lenForm _ => true | _ => false) = true := by decide
+example : (match readLen { rest := [0xff, 1, 0] } with | .err .lenForm _ => true | _ => false) = true := by decide
+example : (match peekLen 1 { rest := [0x30, 0x91, 1, 0] } with | .err .lenForm _ => true | _ => false) = true := by decide
 
 -- Non-vacuity: issuer CA (key 1) above the end-entity (key 5): a CRL signed by key 5 is refused, by key 1 accepted.
 def leaf : CertA := ⟨5, 100, 7, 42, some 9, .ecdsa, none⟩
